@@ -4,3 +4,4 @@
 //! which fails to compile for an unrelated reason (renamed API, wrong path) is detected.
 //! Run with `cargo +nightly test --doc --offline` (stable ignores the error code).
 pub mod c19;
+pub mod c20;
